@@ -325,6 +325,8 @@ class Check:
         cov["known_findings_seen"] = sorted(seen_known)
         cov["failing_inputs"] = len(self.failing)
         cov["model_drift"] = len(self.drift)
+        if self.drift:
+            cov["model_drift_samples"] = self.drift[:5]
         if self.notes:
             cov["notes"] = self.notes
         ev = {"property_id": self.pid, "tier": self.tier, "seed": self.seed, "level": self.level,
